@@ -1481,6 +1481,27 @@ func (c *Ctx) gateBefore(fn *ssa.Function, blk *ssa.BasicBlock, via *ssa.Call, d
 	vP := paramByNamed(fn, M+"/efivar.Efivar")
 	readers := []string{M + "/efivarfs/fswrapper.FSWrapper.ReadEfivarsWithGuid", M + "/efivarfs/fswrapper.FSWrapper.ReadEfivarsFile"}
 	e := c.accept()
+	// the test is made in a helper on its own parameters: an operand that derives
+	// from a parameter (other than the variable definition, which the caller has
+	// matched already) derives from what the caller passes there
+	fromCaller := func(sides ...map[ssa.Value]bool) {
+		if via == nil || via.Parent() == nil {
+			return
+		}
+		vargs := ir.CallArgs(via)
+		for k, p := range fn.Params {
+			if k >= len(vargs) || (vP != nil && p == vP) {
+				continue
+			}
+			for _, side := range sides {
+				if side[p] {
+					for v := range c.Slicer().Slice(vargs[k]) {
+						side[v] = true
+					}
+				}
+			}
+		}
+	}
 	for _, ce := range ir.DominatingConds(fn, blk) {
 		// the subset test written out: required &^ stored == 0, or required & stored == required
 		if cmp, ok := ce.Cond.(*ssa.BinOp); ok && (cmp.Op == token.EQL || cmp.Op == token.NEQ) && ce.Truth == (cmp.Op == token.EQL) {
@@ -1507,6 +1528,7 @@ func (c *Ctx) gateBefore(fn *ssa.Function, blk *ssa.BasicBlock, via *ssa.Call, d
 			if req != nil {
 				rs, as := c.Slicer().Slice(req), c.Slicer().Slice(sto)
 				reqFromDef := vP != nil && rs[vP] && ir.HasField(rs, M+"/efivar.Efivar.Attributes")
+				fromCaller(as, rs)
 				stoFromFile := len(ir.CallsIn(as, append(readers, M+"/efivarfs/fswrapper.FSWrapper.ParseEfivars")...)) > 0
 				reqFromFile := len(ir.CallsIn(rs, readers...)) > 0
 				switch {
@@ -1534,6 +1556,7 @@ func (c *Ctx) gateBefore(fn *ssa.Function, blk *ssa.BasicBlock, via *ssa.Call, d
 					}
 				}
 			}
+			fromCaller(as, rs)
 			argFromFile := len(ir.CallsIn(as, append(readers, M+"/efivarfs/fswrapper.FSWrapper.ParseEfivars")...)) > 0
 			recvFromFile := len(ir.CallsIn(rs, readers...)) > 0
 			switch {
